@@ -10,6 +10,7 @@ import XalanModel.Containers.PListAllocProofs
 import XalanModel.Containers.PListHistoryProofs
 import XalanModel.Containers.PListSpliceProofs
 import XalanModel.Containers.PListMoveProofs
+import XalanModel.Containers.PListSpliceCrossProofs
 import XalanModel.Containers.DOMStringProofs
 import XalanModel.Containers.DOMStringCompareProofs
 import XalanModel.Containers.ObjCacheProofs
@@ -838,6 +839,28 @@ example : ((PL.prun ({} : PHeap Int) {}
      .insertAt 2 6, .popFront, .eraseAt 1]).map
       fun r => PL.toList r.1 r.2) = some [5] := by
   decide
+
+/-- **splice(pos, other, it) on the heap, between two list objects** (the form `XalanMap` uses between its
+entry list and its free list): on a heap where destination `l1` and source `l2` are well formed and share no node,
+the six pointer writes of `PL.splice` succeed, the source ring loses exactly `m`, the destination ring gains it in
+front of `p` (both directions each), both free chains, every value and the heap size are unchanged — both lists
+are well formed again, so the step composes.  `plist_ring_unlink` on the source ring, `plist_ring_link` on the
+destination ring, and the frame lemma `lseg_congr` for the ring that is not written. -/
+theorem plist_splice_cross_refines (h : PHeap α) (l1 l2 : PL) (A B A' B' fs1 fs2 : List Nat) (m p : Nat)
+    (P1 : List Nat) (w1 : PL.PWF h l1 (A' ++ B') fs1) (w2 : PL.PWF h l2 (A ++ m :: B) fs2)
+    (hd12 : ∀ a, a ∈ l1.head :: ((A' ++ B') ++ fs1) → a ∈ l2.head :: ((A ++ m :: B) ++ fs2) → False)
+    (hB' : l1.head :: B'.reverse = P1 ++ [p]) :
+    ∃ h', PL.splice h l1 p m = some (h', l1) ∧ PL.PWF h' l1 (A' ++ m :: B') fs1 ∧ PL.PWF h' l2 (A ++ B) fs2 ∧
+      h'.valOf = h.valOf ∧ h'.nodes.length = h.nodes.length :=
+  PL.splice_cross_refines h l1 l2 A B A' B' fs1 fs2 m p P1 w1 w2 hd12 hB'
+
+/-- non-vacuity: two lists in one heap (list 1: head 1, nodes 2,3; list 2: head 4, node 5), node 5 spliced in front
+of node 3 of list 1 -/
+def plistTwoHeap : PHeap Int :=
+  ⟨[⟨none, 0, 0⟩, ⟨none, 3, 2⟩, ⟨some 7, 1, 3⟩, ⟨some 8, 2, 1⟩, ⟨none, 5, 5⟩, ⟨some 9, 4, 4⟩]⟩
+example : ((PL.splice plistTwoHeap { head := 1, free := 0 } 3 5).map fun r =>
+    (PL.toList r.1 r.2, PL.nodesBack r.1 r.2, PL.toList r.1 { head := 4, free := 0 },
+     PL.nodesBack r.1 { head := 4, free := 0 })) = some ([7, 9, 8], [3, 5, 2], [], []) := by decide
 
 /-- **splice(pos, *this, it) inside a history**: in any state reached by `plist_history` (`PL.Rep`), moving the
 element at distance `sidx` from `begin()` in front of the position at distance `pidx` (`pidx = size()`: `end()`)
